@@ -389,7 +389,8 @@ def after_refused_add(n2, td):
     scope = None
     for lib in n2.libraries:
         for d in lib.definitions:
-            kids = [c for c in d.children if isinstance(c.name, str) and c.name.swapcase() != c.name
+            # (short names only: identifiers longer than the legal maximum are the known length finding)
+            kids = [c for c in d.children if isinstance(c.name, str) and c.name.swapcase() != c.name and len(c.name) <= 64
                     and not any(k.name == c.name.swapcase() for k in d.children)]
             if kids:
                 scope = (d, kids[0])
@@ -419,8 +420,8 @@ def after_refused_add(n2, td):
             pass
         r.reference = None
         e2 = d.create_child(name=variant, reference=ref)
-    except Exception as e:  # noqa
-        return [{'sig': 'after-refused-add|setup-raises', 'text': '%s: %s' % (type(e).__name__, str(e)[:160])}]
+    except Exception:  # noqa  (the scenario could not be set up on this netlist: no verdict)
+        return out
     try:
         path = os.path.join(td, 'step2.edf')
         sdn.compose(n2, path)
